@@ -103,4 +103,28 @@ theorem serveHTTP_selection_rule :
     Generated.C19.transportSelection =
       ["tr := p.Transport", "if t.Transport != nil", "tr = t.Transport", "else if t.TLSSkipVerify", "tr = p.InsecureTransport"] := by decide
 
+/-- No `http.Transport` is constructed or copied (`&http.Transport{…}`, `.Clone()`) in the packages on the request
+path — proxy, proxy/gzip, route, main —: the only constructor is `transport.NewTransport`. -/
+theorem no_transport_is_built_or_copied_outside_NewTransport :
+    Generated.C19.transportConstructionsOnRequestPath = [] := by decide
+
+/-- In `ServeHTTP` the transport variable is only ever assigned `p.Transport`, `t.Transport`, `p.InsecureTransport`,
+both reverse-proxy handlers receive that very variable, and the handler variable is only assigned the websocket
+tunnel, the reverse proxy and the gzip wrapper: the model's `handlerFor`
+(`all_handler_paths_use_selected_transport` is about the source). -/
+theorem serveHTTP_handlers_get_the_selected_transport :
+    Generated.C19.serveHTTPTransportSources = ["p.InsecureTransport", "p.Transport", "t.Transport"] ∧
+    Generated.C19.serveHTTPHandlerTransportArgs = ["tr", "tr"] ∧
+    Generated.C19.serveHTTPHandlerAssignments =
+      ["newWSHandler", "newWSHandler", "newHTTPProxy", "newHTTPProxy", "gzip.NewGzipHandler"] := by decide
+
+/-- `ServeHTTP` passes on the request it received: no `context.With*`, no `WithContext`, no deadline or timeout
+handler in `ServeHTTP`, `newHTTPProxy` or the error handler, the request parameter is never rebound, and it is
+the argument of `h.ServeHTTP` — the model's `requestDeadline = none`. -/
+theorem serveHTTP_keeps_the_request_context :
+    Generated.C19.serveHTTPContextDerivations = [] ∧
+    Generated.C19.serveHTTPRequestRebinds = [] ∧
+    Generated.C19.serveHTTPServeArgs = [Generated.C19.serveHTTPRequestParam] ∧
+    requestDeadline = none := by decide
+
 end Fabio.Props.C19Facts
